@@ -190,6 +190,10 @@ func primaryPayloadTypeForRTXExists(needle RTPCodecParameters, haystack []RTPCod
 
 // Filter out RTX codecs that do not have a primary codec.
 func filterUnattachedRTX(codecs []RTPCodecParameters) []RTPCodecParameters {
+	// Work on a copy: the argument may be the MediaEngine's own slice (or the
+	// caller's), and removing an element in place would shift its backing array
+	// and leave a duplicated last element behind for the next reader.
+	codecs = append([]RTPCodecParameters{}, codecs...)
 	for i := len(codecs) - 1; i >= 0; i-- {
 		c := codecs[i]
 		if isRTX, primaryExists := primaryPayloadTypeForRTXExists(c, codecs); isRTX && !primaryExists {
